@@ -11,6 +11,7 @@ import HealSparse.Model.Ranges
 import HealSparse.Model.ScalarOps
 import HealSparse.Model.BoolOps
 import HealSparse.Model.WideMask
+import HealSparse.Model.MultiOps
 namespace HS
 
 inductive Err where
@@ -431,5 +432,113 @@ def apiBoolOp (a : MapObj) (op : String) (rhs : BoolRhs) (inPlace : Bool) : Exce
 def apiInvert (a : MapObj) : Except Err (State Val) := do
   if !a.kind.isBool then throw .notImpl
   pure (ofBoolState (invertMap a.c (toBoolState a.st)))
+
+
+/-! ### union / intersection operations (operations.py) -/
+
+/-- one row of the operation table: what a public function of operations.py passes to
+    `_apply_operation` for a first map of dtype `dt` (re-extracted from /repo on every run
+    into Generated/OpsTable.lean) -/
+structure OpRow where
+  name      : String
+  ufunc     : String
+  dt        : String           -- dtype code of the first map (`u1w` = wide mask)
+  filler    : Val
+  promoted  : String           -- dtype of `np.zeros(1, dt) + filler`
+  union     : Bool
+  intOnly   : Bool
+  fillFirst : Bool
+  dtypeOut  : String           -- "" = none
+deriving Repr, DecidableEq
+
+/-- numpy ufunc on two cells of dtype `dt` -/
+def ufuncCell (ufunc : String) (dt : DT) (x w : Val) : Val :=
+  match ufunc with
+  | "add" => (match x, w with
+      | .num _ _, .num _ _ => Val.add dt x w
+      | .bytes _, .bytes _ => Val.add dt x w
+      | _, _ => .poison)
+  | "subtract" => (match x, w with
+      | .num a ea, .num b eb => .ofDy (dt.wrap (dySub (a, ea) (b, eb)))
+      | _, _ => .poison)
+  | "multiply" => Val.mul dt x w
+  | "divide" => Val.div x w
+  | "floor_divide" => Val.floorDiv dt x w
+  | "bitwise_or" => Val.or dt x w
+  | "bitwise_and" => Val.and dt x w
+  | "bitwise_xor" => Val.xor dt x w
+  | "fmax" => Val.fmax x w
+  | "fmin" => Val.fmin x w
+  | _ => .poison
+
+def dtCode : DT → String
+  | .int b sg => (if sg then "i" else "u") ++ toString (b / 8)
+  | .flt b => "f" ++ toString (b / 8)
+  | .bool => "b1"
+
+def Kind.code : Kind → String
+  | .plain dt => dtCode dt
+  | .wide _ => "u1w"
+  | .packed => "b1"
+  | .recd _ _ => "rec"
+
+def parseDTCode (s : String) : Option DT :=
+  match s with
+  | "i1" => some (.int 8 true)  | "i2" => some (.int 16 true)
+  | "i4" => some (.int 32 true) | "i8" => some (.int 64 true)
+  | "u1" => some (.int 8 false)  | "u2" => some (.int 16 false)
+  | "u4" => some (.int 32 false) | "u8" => some (.int 64 false)
+  | "f4" => some (.flt 32) | "f8" => some (.flt 64)
+  | "b1" => some .bool
+  | _ => none
+
+/-- `_apply_operation(map_list, func, filler, union, int_only, fill_with_first_map, dtype_out)` -/
+def apiMultiOp (row : OpRow) (maps : List MapObj) : Except Err MapObj := do
+  if maps.length < 2 then throw .runtime
+  if row.fillFirst && row.union then throw .runtime
+  let first ← match maps with
+    | m :: _ => pure m
+    | [] => throw .runtime
+  for m in maps do
+    match m.kind with
+    | .recd _ _ => throw .notImpl
+    | _ => pure ()
+    if row.intOnly && !m.kind.isIntegerMap then throw .value
+    if m.covord != first.covord || m.spord != first.spord then throw .runtime
+    let wideW : Kind → Nat := fun k => match k with | .wide n => n | _ => 0
+    if wideW m.kind != wideW first.kind then throw .runtime
+  let isWide := match first.kind with | .wide _ => true | _ => false
+  if isWide && row.fillFirst then throw .runtime
+  -- empty combined coverage: `make_empty_like(map_list[0])`
+  let anyCov := (List.range first.c.ncov).any fun k =>
+    if row.union then maps.any (fun m => covered m.c m.st k) else maps.all (fun m => covered m.c m.st k)
+  if !anyCov then
+    return { first with st := makeEmpty first.c first.vc [], cache := none }
+  -- output kind / dtype / sentinel
+  let dtOut : DT := match parseDTCode row.dtypeOut with
+    | some d => d
+    | none => first.kind.dt
+  let kindOut : Kind := match first.kind, parseDTCode row.dtypeOut with
+    | _, some d => .plain d
+    | .packed, none => .plain .bool
+    | k, none => k
+  -- type promotion by the filler: the array must keep the output dtype
+  if row.promoted != (if isWide then "u1" else dtCode dtOut) then throw .value
+  let filler : Val := match first.kind, row.filler with
+    | .wide n, .num k _ => .bytes (List.replicate n k.toNat)
+    | _, v => v
+  let vc : VCfg Val := ⟨kindOut.blank first.sent, kindOut.valid first.sent⟩
+  -- all inputs are read with their own validity; cell values are dtype-agnostic numerals
+  let f := ufuncCell row.ufunc (if isWide then .int 8 false else dtOut)
+  -- inputs may have different sentinels: normalise each map to the output sentinel
+  let norm (m : MapObj) : State Val :=
+    ⟨m.st.cov, m.st.sp.map fun x => if m.vc.valid x then x else vc.sentinel⟩
+  if maps.any (fun m => m.st.sp.any fun x => m.vc.valid x && !vc.valid x) then throw .inexact
+  match multiOp first.c vc (maps.map norm) f filler row.union row.fillFirst with
+  | none => throw .index
+  | some st =>
+    if st.sp.any (fun x => match x with | .num n e => !(Val.num n e).fits dtOut | _ => false) then
+      throw .inexact
+    pure { covord := first.covord, spord := first.spord, kind := kindOut, sent := first.sent, st := st }
 
 end HS
